@@ -82,6 +82,10 @@ struct Relay {
         front = f; back = b;
         front_addr = mkaddr(f, "front");
         back_addr = mkaddr(b, "back");
+        // two draws of a free port can give the same number: the relay would then fail to bind, and
+        // the start-up probe would reach the server directly and take it for the relay
+        auto port_of = [](const std::string &a) { size_t c = a.rfind(':'); return c == std::string::npos ? std::string() : a.substr(c + 1); };
+        for (int i = 0; i < 20 && f >= 2 && b >= 2 && port_of(front_addr) == port_of(back_addr); i++) back_addr = mkaddr(b, "back");
         server = Ep();
         server.tag = 200;
         struct xcm_attr_map *a = xcm_attr_map_create();
